@@ -1348,6 +1348,9 @@ class nx_action_learn (of.ofp_action_vendor_base):
     if self.table_id != other.table_id: return False
     if self.fin_idle_timeout != other.fin_idle_timeout: return False
     if self.fin_hard_timeout != other.fin_hard_timeout: return False
+    # flow_mod_specs have no __eq__ of their own; compare their wire form
+    if [s.pack() for s in self.spec] != [s.pack() for s in other.spec]:
+      return False
     return True
 
   def _pack_body (self):
